@@ -27,7 +27,7 @@ def mirror_problem(prob):
     return q
 
 
-def gen_pipe(rng, prob, with_val=True):
+def gen_pipe(rng, prob, with_val=True, multiscale=False):
     steps = [("matching_cost", dp.mc_cfg(prob))]
     if rng.rand() < 0.35 and prob["bands"] is None:
         steps.append(("aggregation", {"aggregation_method": "cbca", "cbca_distance": int(rng.randint(1, 4)), "cbca_intensity": float([5.0, 30.0][rng.randint(2)])}))
@@ -46,6 +46,9 @@ def gen_pipe(rng, prob, with_val=True):
         steps.append(("validation", v))
         if rng.rand() < 0.4:
             steps.append(("filter.1", {"filter_method": "median", "filter_size": 3}))
+    if multiscale:
+        # the coarse-to-fine loop: both sides refine their own interval (the right one from the right user interval)
+        steps.insert(len(steps) - (1 if rng.rand() < 0.5 else 0), ("multiscale", {"multiscale_method": "fixed_zoom_pyramid", "num_scales": 2, "scale_factor": 2}))
     return steps
 
 
@@ -72,14 +75,19 @@ def run(tier):
         win = 3 if measure in ("census", "zncc") else [1, 3, 5][k % 3]
         s = [1, 2, 4][k % 3]
         a = int(rng.randint(-3, 2))
-        prob = dp.gen_problem(rng, rows=win + 3 + k % 3, cols=win + 7 + k % 4, win=win, s=s, measure=measure, disp=(a, a + int(rng.randint(0, 4))),
+        ms = (k % 4 == 3)
+        if ms:
+            s = 1
+        prob = dp.gen_problem(rng, rows=win + (9 if ms else 3) + k % 3, cols=win + (15 if ms else 7) + k % 4, win=win, s=s, measure=measure,
+                              disp=((a - 2, a + 1 + int(rng.randint(0, 4))) if ms else (a, a + int(rng.randint(0, 4)))),
                               vmax=3 if measure != "zncc" else 2, mask_mode=["none", "left", "right", "both"][k % 4],
                               nbands=1 if k % 5 else 2,
                               conv=None if k % 3 else (dp.CONVENTIONS[(k // 3) % 5], dp.CONVENTIONS[(k // 3 + 1 + k % 2) % 5]))
-        steps = gen_pipe(rng, prob)
+        steps = gen_pipe(rng, prob, multiscale=ms)
         cfg = {"pipeline": {nm: dict(c) for nm, c in steps}}
         feat = {"measure": measure, "win": win, "subpix": s, "pipeline": [nm for nm, _ in steps],
-                "interp": steps and any("interpolated_disparity" in c for _, c in steps), "multiband": prob["bands"] is not None}
+                "interp": steps and any("interpolated_disparity" in c for _, c in steps), "multiband": prob["bands"] is not None,
+                "multiscale": ms, "interval": list(dp.global_interval(prob))}
         chk.count(("mirror", measure, win, s, tuple(feat["pipeline"]), k))
         try:
             l1, r1, _ = dp.run_pipeline(*dp.make_datasets(prob), {"pipeline": {nm: dict(c) for nm, c in steps}})
